@@ -9,6 +9,12 @@ Oracle (closed-form float64 log densities, self-tested against scipy.stats): wit
     w == log p(x', rest) + log q(x | args(x')) - log p(x, rest) - log q(x' | args(x)),
 every other site bit-identical, score(new trace) == log p(x', rest), return value consistent,
 and the returned (backward) request is again an applicable Rejuvenate move obeying the same law.
+
+Second family ("whole" / "nested"): Rejuvenate with a @gen proposal over 1-2 addresses applied to the
+trace of a whole static model, and StaticRequest({"sub": Rejuvenate}) addressed at a nested @gen
+call; the function that is rejuvenated returns None, a constant, another site (return value
+independent of the proposed addresses) or a proposed site; proposal arguments always depend on
+the current choices. Same oracle over the joint density of the whole program.
 """
 
 from __future__ import annotations
@@ -349,6 +355,275 @@ def check_case(case, ctx=None):
 
 
 # ----------------------------------------------------------------------------------------
+# structured requests: Rejuvenate on the trace of a whole @gen model ("whole") and
+# StaticRequest({"sub": Rejuvenate}) addressed at a nested @gen call ("nested")
+# ----------------------------------------------------------------------------------------
+CONST_RET = 1.5
+
+
+def build_gen(sites, ret):
+    """@gen function over the site grammar returning None / a constant / one of its sites"""
+    import genjax
+    import jax.numpy as jnp
+
+    dists = {"normal": genjax.normal, "laplace": genjax.laplace, "cauchy": genjax.cauchy, "exponential": genjax.exponential}
+
+    @genjax.gen
+    def fn(arg):
+        vals = []
+        for i, s in enumerate(sites):
+            sc = s["scale"]["s0"]
+            for c, v in zip(s["scale"]["deps"], vals):
+                if c != 0:
+                    sc = sc + c * jnp.abs(v)
+            if s["dist"] == "exponential":
+                v = dists["exponential"](sc) @ addr(i)
+            else:
+                loc = s["loc"]["c"] + s["loc"]["arg"] * arg
+                for c, u in zip(s["loc"]["deps"], vals):
+                    if c != 0:
+                        loc = loc + c * u
+                v = dists[s["dist"]](loc, sc) @ addr(i)
+            vals.append(v)
+        if ret == "none":
+            return None
+        if ret == "const":
+            return CONST_RET
+        return vals[ret]
+
+    return fn
+
+
+def build_outer(case):
+    import genjax
+
+    sub = build_gen(case["sites"], case["ret"])
+    pre, post = case["outer"]["pre"], case["outer"]["post"]
+    dists = {"normal": genjax.normal, "laplace": genjax.laplace, "cauchy": genjax.cauchy}
+
+    @genjax.gen
+    def outer(arg):
+        a = dists[pre["dist"]](pre["loc"]["c"] + pre["loc"]["arg"] * arg, pre["scale"]["s0"]) @ "pre"
+        r = sub(a) @ "sub"
+        loc = post["loc"]["c"]
+        if r is not None:
+            loc = loc + post["rdep"] * r
+        return dists[post["dist"]](loc, post["scale"]["s0"]) @ "post"
+
+    return outer
+
+
+def build_struct_proposal(case):
+    """@gen proposal tracing the target addresses; its arguments are (loc, scale) per target"""
+    import genjax
+
+    dist = build_proposal(case["proposal"])
+    ts = case["targets"]
+    if len(ts) == 1:
+
+        @genjax.gen
+        def prop1(l0, s0):
+            dist(l0, s0) @ addr(ts[0])
+
+        return prop1
+
+    @genjax.gen
+    def prop2(l0, s0, l1, s1):
+        dist(l0, s0) @ addr(ts[0])
+        dist(l1, s1) @ addr(ts[1])
+
+    return prop2
+
+
+def build_struct_mapping(case):
+    import jax.numpy as jnp
+
+    ts, maps = case["targets"], case["maps"]
+
+    def one(mp, v):
+        if mp[0] == "rw":
+            return (v, mp[1])
+        _, a, b, s0, s1 = mp
+        return (a * v + b, s0 + s1 * jnp.abs(v))
+
+    def mapping(chm):
+        out = ()
+        for t, mp in zip(ts, maps):
+            out = out + one(mp, chm[addr(t)])
+        return out
+
+    return mapping
+
+
+def struct_values(tr, case):
+    chm = tr.get_choices()
+    n = len(case["sites"])
+    if case["kind"] == "whole":
+        return [np.asarray(chm[addr(i)]) for i in range(n)]
+    return [np.asarray(chm["pre"])] + [np.asarray(chm["sub", addr(i)]) for i in range(n)] + [np.asarray(chm["post"])]
+
+
+def struct_ref_terms(case, vals):
+    """log-density terms of the whole program at the float64 values (same order as struct_values)"""
+    sites, arg = case["sites"], case["arg"]
+    if case["kind"] == "whole":
+        return ref_terms(sites, vals, arg)
+    pre, post = case["outer"]["pre"], case["outer"]["post"]
+    a, sub_vals, c = vals[0], vals[1:-1], vals[-1]
+    out = [ref_logpdf(pre["dist"], a, ref_params(pre, [], arg))]
+    out += ref_terms(sites, sub_vals, a)
+    loc = post["loc"]["c"]
+    if case["ret"] == "const":
+        loc += post["rdep"] * CONST_RET
+    elif case["ret"] != "none":
+        loc += post["rdep"] * sub_vals[case["ret"]]
+    out.append(ref_logpdf(post["dist"], c, (loc, post["scale"]["s0"])))
+    return out
+
+
+def struct_request(case):
+    from genjax._src.generative_functions.static import StaticRequest
+    from genjax.inference.requests import Rejuvenate
+
+    rej = Rejuvenate(build_struct_proposal(case), build_struct_mapping(case))
+    return rej if case["kind"] == "whole" else StaticRequest({"sub": rej})
+
+
+def _struct_step(case, step, old_tr, new_tr, w):
+    off = 0 if case["kind"] == "whole" else 1
+    tpos = [off + t for t in case["targets"]]
+    old_raw, new_raw = struct_values(old_tr, case), struct_values(new_tr, case)
+    old, new = [_f(v) for v in old_raw], [_f(v) for v in new_raw]
+    for i in range(len(old)):
+        if i not in tpos and old_raw[i].tobytes() != new_raw[i].tobytes():
+            raise Violation("other-site-moved", f"step {step}: choice #{i} is not proposed but changed {old[i]!r} -> {new[i]!r}", case)
+    if not all(math.isfinite(v) for v in new):
+        raise Violation("non-finite-proposal", f"step {step}: new trace holds {new}", case)
+    p_old, p_new = struct_ref_terms(case, old), struct_ref_terms(case, new)
+    q_fwd = [ref_logpdf(case["proposal"], new[i], ref_map(mp, old[i])) for i, mp in zip(tpos, case["maps"])]
+    q_bwd = [ref_logpdf(case["proposal"], old[i], ref_map(mp, new[i])) for i, mp in zip(tpos, case["maps"])]
+    want = math.fsum(p_new) + math.fsum(q_bwd) - math.fsum(p_old) - math.fsum(q_fwd)
+    terms = p_old + p_new + q_fwd + q_bwd
+    got = _f(w)
+    ok, atol = _close(got, want, len(terms), max(abs(v) for v in terms))
+    if not ok:
+        raise Violation(
+            "mh-weight",
+            f"step {step}: weight {got!r} but log p(x')+log q(x|args(x'))-log p(x)-log q(x'|args(x)) = {want!r} "
+            f"(x={[old[i] for i in tpos]}, x'={[new[i] for i in tpos]}, log p(x)={math.fsum(p_old)!r}, log p(x')={math.fsum(p_new)!r}, "
+            f"log q(x'|args(x))={q_fwd}, log q(x|args(x'))={q_bwd}, atol={atol:.2e})",
+            case,
+        )
+    score = _f(new_tr.get_score())
+    ok, atol = _close(score, math.fsum(p_new), len(p_new), max(abs(v) for v in p_new))
+    if not ok:
+        raise Violation("new-score", f"step {step}: new trace score {score!r} but log p(new choices) = {math.fsum(p_new)!r}", case)
+    ret = new_tr.get_retval()
+    if case["kind"] == "nested":
+        good = np.asarray(ret).tobytes() == new_raw[-1].tobytes()
+    elif case["ret"] == "none":
+        good = ret is None
+    elif case["ret"] == "const":
+        good = _f(ret) == CONST_RET
+    else:
+        good = np.asarray(ret).tobytes() == new_raw[case["ret"]].tobytes()
+    if not good:
+        raise Violation("new-retval", f"step {step}: return value {ret!r} is not the one of the new choices (ret={case['ret']})", case)
+
+
+def check_struct(case, ctx=None):
+    import jax
+    from genjax import Diff
+    from genjax._src.generative_functions.static import StaticRequest
+    from genjax.inference.requests import Rejuvenate
+
+    model = build_gen(case["sites"], case["ret"]) if case["kind"] == "whole" else build_outer(case)
+    tr = model.simulate(jax.random.key(case["k_sim"]), (case["arg"],))
+    if not all(math.isfinite(_f(v)) for v in struct_values(tr, case)):
+        return
+    k_edit = case["k_edit"] if case["k_edit"] != case["k_sim"] else case["k_edit"] ^ 1
+    req = struct_request(case)
+    new_tr, w, retdiff, bwd = req.edit(jax.random.key(k_edit), tr, Diff.no_change(tr.get_args()))
+    _struct_step(case, 0, tr, new_tr, w)
+    inner = bwd
+    if case["kind"] == "nested":
+        if not isinstance(bwd, StaticRequest) or "sub" not in bwd.addressed:
+            raise Violation("backward-request", f"backward request {bwd!r} does not address 'sub'", case)
+        inner = bwd.addressed["sub"]
+    if not isinstance(inner, Rejuvenate):
+        raise Violation("backward-request", f"backward request is {inner!r}, not a Rejuvenate", case)
+    if case["chain"]:
+        tr2, w2, _, _ = bwd.edit(jax.random.key(k_edit ^ 0x5BD1E995), new_tr, Diff.no_change(new_tr.get_args()))
+        _struct_step(case, 1, new_tr, tr2, w2)
+
+
+@st.composite
+def state_mapping(draw):
+    """proposal arguments that depend on the current value"""
+    if draw(st.booleans()):
+        return ["rw", draw(_q(0.05, 2.0))]
+    return ["asym", draw(_q(-1.5, 1.5)), draw(_q(-2.0, 2.0)), draw(_q(0.2, 1.5)), draw(_q(0.0, 1.0))]
+
+
+@st.composite
+def struct_strategy(draw):
+    kind = draw(st.sampled_from(["whole", "nested"]))
+    n = draw(st.integers(1, 3))
+    ntar = 2 if n >= 2 and draw(st.integers(0, 3)) == 0 else 1
+    targets = sorted(draw(st.lists(st.integers(0, n - 1), min_size=ntar, max_size=ntar, unique=True)))
+    sites = [draw(site_strategy(i, i in targets)) for i in range(n)]
+    # the return value: independent of the proposed addresses (None, constant, another site) or one of them
+    others = [i for i in range(n) if i not in targets]
+    ret_kind = draw(st.sampled_from(["none", "const", "other", "other", "target", "target"]))
+    if ret_kind == "other":
+        ret = draw(st.sampled_from(others)) if others else "const"
+    elif ret_kind == "target":
+        ret = draw(st.sampled_from(targets))
+    else:
+        ret = ret_kind
+    case = {
+        "kind": kind,
+        "arg": draw(_q(-2.0, 2.0)),
+        "sites": sites,
+        "ret": ret,
+        "targets": targets,
+        "proposal": draw(st.sampled_from(PROPOSALS)),
+        "maps": [draw(state_mapping()) for _ in targets],
+        "k_sim": draw(st.integers(0, 2**31 - 1)),
+        "k_edit": draw(st.integers(0, 2**31 - 1)),
+        "chain": draw(st.booleans()),
+    }
+    if kind == "nested":
+        osite = lambda: {  # noqa: E731
+            "dist": draw(st.sampled_from(TARGET_DISTS)),
+            "loc": {"c": draw(_q(-2.0, 2.0)), "arg": draw(_coef()), "deps": []},
+            "scale": {"s0": draw(_q(0.3, 2.5)), "deps": []},
+        }
+        case["outer"] = {"pre": osite(), "post": dict(osite(), rdep=draw(_q(-1.5, 1.5).filter(lambda c: abs(c) >= 0.1)))}
+    return case
+
+
+def struct_classes(case):
+    ret = case["ret"]
+    rk = ret if isinstance(ret, str) else ("target" if ret in case["targets"] else "other-site")
+    cl = [
+        "kind:" + case["kind"],
+        f"{case['kind']}:ret-{rk}",
+        f"{case['kind']}:targets-{len(case['targets'])}",
+        "proposal:" + case["proposal"],
+        f"sites:{len(case['sites'])}",
+    ]
+    cl.append(f"{case['kind']}:retval-{'depends-on' if rk == 'target' else 'independent-of'}-proposed-address")
+    for mp in case["maps"]:
+        cl.append("map:" + mp[0])
+    if any(mp[0] == "asym" and mp[4] != 0 for mp in case["maps"]):
+        cl.append("state-dependent-scale")
+    if case["chain"]:
+        cl.append("backward-request-applied")
+    return cl
+
+
+# ----------------------------------------------------------------------------------------
 # entry points
 # ----------------------------------------------------------------------------------------
 def _selftest():
@@ -405,13 +680,22 @@ def run(ctx):
         check_case(case, ctx)
 
     ctx.extra["tolerance"] = "atol 2e-5*k*max(1,M) + rtol 2e-4 (k log-density terms of magnitude <= M)"
-    ctx.run_hypothesis(case_strategy(), chk, ctx.pick(60, 300), salt="main")
+    ctx.run_hypothesis(case_strategy(), chk, ctx.pick(36, 300), salt="main")
+
+    def chk2(case):
+        ctx.note_case(case, nontrivial=True, classes=struct_classes(case))  # maps are rw / asym by construction
+        check_struct(case, ctx)
+
+    ctx.run_hypothesis(struct_strategy(), chk2, ctx.pick(18, 150), salt="struct")
 
 
 def replay(ctx, case):
     if isinstance(case, dict) and case.get("probe"):
         return probes(ctx)
     try:
-        check_case(case, ctx)
+        if case.get("kind") in ("whole", "nested"):
+            check_struct(case, ctx)
+        else:
+            check_case(case, ctx)
     except Violation as v:
         ctx.violation(v.klass, v.message, v.case if v.case is not None else case)
